@@ -71,7 +71,7 @@ package lock
 //@
 //@ func (*Lock).AfterAuthFail
 //@   property C04 C16
-//@   requires l.Modules.LockAfter >= 1 && l.Modules.LockWindow >= 0 && l.Modules.LockDuration >= 0
+//@   requires l.Modules.LockWindow >= 0 && l.Modules.LockDuration >= 0
 //@   -- C16(a): the registered handler is a plain wrapper: for an account locked throughout the
 //@   -- request it answers with the one fixed redirect of updateLockedState, nothing else
 //@   ensures[C16] locked_same: (!panics && (emits Store.Save(?s) -> ?e :: e == nil && (each Now() -> ?t => old(Locked(s)) > t && Locked(s) > t))) ==>
@@ -88,7 +88,9 @@ package lock
 //@        !emits Cook.Put(_, _) && !emits Cook.Del(_) && !emits HeaderSet(_, _, _) && !emits WriteHeader(_, _) && !emits Write(_, _) && !emits HTTPRedirect(_, _, _))
 //@   -- C04: every failure is recorded, also against an account that is already locked (it
 //@   -- re-triggers the lock)
-//@   ensures[C04] failure_always_recorded: (!panics && result.1 == nil) ==> emits Store.Save(_) -> ?e :: e == nil
+//@   -- (C16(a): whatever the thresholds are configured to - also "never lock automatically" - a
+//@   -- wrong password goes through the same routine as a correct one; locked_same then fixes the answer)
+//@   ensures[C04,C16] failure_always_recorded: (!panics && result.1 == nil) ==> emits Store.Save(_) -> ?e :: e == nil
 //@   ensures[C04] failure_counts: each Store.Save(?s) -> _ =>
 //@       (emits Now() -> ?nw :: AttemptCount(s) == step_count(old(AttemptCount(s)), old(LastAttempt(s)), nw, l.Modules.LockWindow))
 //@
